@@ -512,14 +512,12 @@ class ParseTerm(ParseContract):
 
 
 def contracts():
-    cs = []
-    cs += [ParseExpression((0,), 'sym'), ParseExpression((2,), 'sym'), ParseExpression((1, 1), 'sym')]
-    cs += [ParseExpression(rs) for rs in ((0, 0), (0, 1), (1, 0), (1, 2), (2, 1), (2, 2), (1, 1, 1))]
-    cs += [ParseExpression(rs, nsummed=0) for rs in ((3, 3), (2, 2, 2))]
-    cs += [ParseFraction(1, r) for r in (0, 2)] + [ParseFraction(3)]
-    cs += [ParseFraction(2, rn, 0) for rn in range(0, 4)] + [ParseFraction(2, 1, 1)]
+    cs = [ParseExpression((0,), 'sym'), ParseExpression((1, 1), 'sym')]
+    cs += [ParseExpression(rs) for rs in ((0, 1), (1, 2), (2, 2), (1, 1, 1))]
+    cs += [ParseExpression((3, 3), nsummed=0)]
+    cs += [ParseFraction(1, 2), ParseFraction(3), ParseFraction(2, 0, 0), ParseFraction(2, 1, 0), ParseFraction(2, 2, 0), ParseFraction(2, 3, 0), ParseFraction(2, 1, 1)]
     cs.append(ParseTerm(()))
-    cs += [ParseTerm(rs) for rs in ((0,), (2,), (0, 2), (1, 1), (1, 2), (2, 1), (2, 2), (1, 3), (3, 1), (1, 0, 1), (1, 1, 1), (1, 1, 2))]
+    cs += [ParseTerm(rs) for rs in ((2,), (1, 1), (1, 2), (2, 2), (1, 3), (1, 0, 1), (1, 1, 1))]
     return cs
 
 
